@@ -168,9 +168,14 @@ class Family:
                 for f in k.methods.values():
                     if f.self_name is None or P.resolve(c, f.name) is not f:
                         continue
+                    fl_ = None
                     for n in walk_own(f.node):
                         if isinstance(n, ast.Compare) and len(n.ops) == 1 and isinstance(n.ops[0], (ast.Eq, ast.NotEq, ast.Is, ast.IsNot)):
-                            parts = [n.left, n.comparators[0]]
+                            if fl_ is None:
+                                from ..flow import Flow as _Flow
+                                fl_ = _Flow(f.node)
+                            # opened_in = self.<pid field>; if opened_in != os.getppid(): a local that names the field reads as the field
+                            parts = [fl_.expand(x) if isinstance(x, ast.Name) else x for x in (n.left, n.comparators[0])]
                             other = [x for x in parts if dotted(x) != (f.self_name, pid)]
                             if len(other) == 1 and not (isinstance(other[0], ast.Constant) and other[0].value is None) \
                                     and any(isinstance(cl.func, ast.Attribute) and cl.func.attr in ("open", "close") for cl in calls_in(f.node)):
